@@ -346,8 +346,23 @@ class Tensor:
     def double(self):
         return self.to(dtype=float64)
 
+    def is_contiguous(self):
+        return bool(self.a.flags['C_CONTIGUOUS'])
+
     def contiguous(self):
-        return self
+        if self.a.flags['C_CONTIGUOUS']:
+            return self
+        return _mk(_np.ascontiguousarray(self.a), self.dtype, (self,))
+
+    def storage_offset(self):
+        root = self.a
+        while root.base is not None and _isinstance(root.base, _np.ndarray):
+            root = root.base
+        off = self.a.__array_interface__['data'][0] - root.__array_interface__['data'][0]
+        return int(off // self.a.itemsize) if self.a.itemsize else 0
+
+    def data_ptr(self):
+        return int(self.a.__array_interface__['data'][0])
 
     def detach(self):
         from . import autograd
